@@ -55,7 +55,8 @@ const EngineDef* find_engine(const std::string& name);
     ENGINE_DECL(sink) \
     ENGINE_DECL(writers) \
     ENGINE_DECL(objects) \
-    ENGINE_DECL(tools)
+    ENGINE_DECL(tools) \
+    ENGINE_DECL(damage)
 #define ENGINE_DECL(n) void engine_##n(RunCtx&);
 ENGINE_LIST
 #undef ENGINE_DECL
